@@ -523,8 +523,9 @@ def dry_need(lat, call):
     need = rec.treemax
     for e in rec.events:
         if e["ev"] == "handover":
-            for a, b, _ in e["bonds"] + e["wbonds"]:
-                need = max(need, U.cross(lat.edges, set(e["blocks"][a - 1]), set(e["blocks"][b - 1])))
+            n1 = max([U.cross(lat.edges, set(e["blocks"][a - 1]), set(e["blocks"][b - 1])) for a, b, _ in e["bonds"]] or [0])
+            n2 = max([U.cross(lat.edges, set(e["blocks"][a - 1]), set(e["blocks"][b - 1])) for a, b, _ in e["wbonds"]] or [1])
+            need = max(need, n1 * max(1, n2))
         elif e["ev"] == "compress":
             need = max(need, U.cross(lat.edges, set(e["a"]), set(e["b"])))
     return need
